@@ -81,14 +81,14 @@ func runHist(spec string, massive bool) string {
 			}
 			opts = append(opts, mopt...)
 			opts = append(opts, encOpt(f, 7)...)
-			fail := optInt(f[6])
+			fail := parseFail(f[6])
 			var vs []visitRec
 			i := 0
 			cb := func(wn *gtree.WalkerNode) error {
 				vs = append(vs, recVisit(wn))
 				i++
 				if i-1 == fail {
-					return errInjectedCallback
+					return cbErr
 				}
 				return nil
 			}
@@ -176,14 +176,14 @@ func runHist(spec string, massive bool) string {
 			}
 			opts = append(opts, mopt...)
 			opts = append(opts, encOpt(f, 7)...)
-			fail := optInt(f[5])
+			fail := parseFail(f[5])
 			var vs []visitRec
 			i := 0
 			cb := func(wn *gtree.WalkerNode) error {
 				vs = append(vs, recVisit(wn))
 				i++
 				if i-1 == fail {
-					return errInjectedCallback
+					return cbErr
 				}
 				return nil
 			}
